@@ -114,10 +114,17 @@ structure Quirks where
   /-- XREADGROUP with an explicit id reads the consumer's own pending history and changes nothing
       (pinned tree: it re-reads the stream and re-adds the entries to the PEL) -/
   histFix : Bool
+  /-- `add_pending` of an id that is already pending moves it to the reader exactly as XCLAIM does and counts it once
+      (pinned tree: the owner is overwritten in `entries_by_id`, the id stays in the old owner's vector, both
+      counters grow) -/
+  redeliverFix : Bool
+  /-- `get_pending_range` with a consumer filter walks the requested range of `entries_by_id` and keeps the
+      consumer's rows (pinned tree: it walks the consumer's vector and ignores the range) -/
+  filterFix : Bool
 deriving DecidableEq, Repr
 
-def Quirks.pinned : Quirks := ⟨false, false, false, false⟩
-def Quirks.fixed : Quirks := ⟨true, true, true, true⟩
+def Quirks.pinned : Quirks := ⟨false, false, false, false, false, false⟩
+def Quirks.fixed : Quirks := ⟨true, true, true, true, true, true⟩
 
 inductive Reply
   | ok | busy | nogroup | err | panic
@@ -214,6 +221,25 @@ def claimOne (c : Name) (elig : Bool) (g : Group) (id : Id) : Group × Bool :=
     else (g, false)
   | none => (g, false)
 
+/-- one iteration of the loop of the repaired `add_pending`: an id that is already pending changes hands exactly as
+    in `claim_messages` (`claimOne`), a new id is inserted and counted at once; the second component counts the new ids -/
+def deliverOneFixed (c : Name) (s : Group × Nat) (id : Id) : Group × Nat :=
+  match pelFind id s.1.byId with
+  | some _ => ((claimOne c true s.1 id).1, s.2)
+  | none => ({ addEntry c s.1 id with consumers := consAdjust c (· + 1) s.1.consumers }, s.2 + 1)
+
+/-- the repaired `ConsumerGroup::add_pending` -/
+def addPendingFixed (g : Group) (c : Name) (ids : List Id) : Group :=
+  let r := ids.foldl (deliverOneFixed c) (createConsumer g c, 0)
+  let g3 := { r.1 with totalPending := r.1.totalPending + r.2 }
+  match ids.getLast? with
+  | some l => if idLt g3.lastDelivered l then { g3 with lastDelivered := l } else g3
+  | none => g3
+
+/-- `add_pending` of the tree described by `q` -/
+def addPendingQ (q : Quirks) (g : Group) (c : Name) (ids : List Id) : Group :=
+  if q.redeliverFix then addPendingFixed g c ids else addPending g c ids
+
 def claimLoop (c : Name) (elig : Bool) : Group → List Id → Group × List Id
   | g, [] => (g, [])
   | g, id :: ids =>
@@ -281,9 +307,13 @@ def showEntry (e : PEntry) : Id × Name × Nat := (e.id, e.owner, e.count)
 def pendingRange (q : Quirks) (g : Group) (s e : Option Id) (count : Nat) (c : Option Name) : Reply :=
   match c with
   | some c =>
-    match alGet c g.byConsumer with
-    | some l => .entries (((l.filterMap (fun id => pelFind id g.byId)).take count).map showEntry)
-    | none => .entries []
+    if q.filterFix then
+      if (match e with | some hi => idLt hi (s.getD (0, 0)) | none => false) then .entries []
+      else .entries (((g.byId.filter (fun x => inRange s e x.id && x.owner == c)).take count).map showEntry)
+    else
+      match alGet c g.byConsumer with
+      | some l => .entries (((l.filterMap (fun id => pelFind id g.byId)).take count).map showEntry)
+      | none => .entries []
   | none =>
     let lo := s.getD (0, 0)
     let inRange := fun (x : PEntry) => idLe lo x.id && (match e with | some hi => idLe x.id hi | none => true)
@@ -307,7 +337,7 @@ def readGroup (q : Quirks) (stream : List Id) (g : Group) (c : Name) (frm : Opti
   match frm with
   | none =>
     let es := rangeAfter stream g.lastDelivered count
-    if !noack && !es.isEmpty then (addPending g c es, es)
+    if !noack && !es.isEmpty then (addPendingQ q g c es, es)
     else if q.noackFix then
       (match es.getLast? with
        | some l => if idLt g.lastDelivered l then ({ g with lastDelivered := l }, es) else (g, es)
@@ -317,7 +347,7 @@ def readGroup (q : Quirks) (stream : List Id) (g : Group) (c : Name) (frm : Opti
     if q.histFix then (g, (history g c a count).filter (fun x => stream.contains x))
     else
       let es := rangeAfter stream a count
-      if !noack && !es.isEmpty then (addPending g c es, es) else (g, es)
+      if !noack && !es.isEmpty then (addPendingQ q g c es, es) else (g, es)
 
 /-- `ConsumerGroup::auto_claim` + the entry lookup of `Stream::auto_claim_messages` -/
 def autoClaim (stream : List Id) (g : Group) (c : Name) (elig : Bool) (start : Id) (count : Nat) : Group × Reply :=
